@@ -21,12 +21,12 @@ ID = "C31"
 LEAN_MODULES = ["NiftyVerif.Core.Proto", "NiftyVerif.Props.C31"]
 DRIVER = "Driver/C31.lean"
 OBLIGATIONS = ["NiftyVerif.C31." + t for t in (
-    "parent_child", "parent_child_open", "children_partition", "children_partition_open",
-    "parent_child_vec", "children_cover_vec",
-    "flat_roundtrip_serial", "flat_roundtrip_serial_inv", "ravelSerial_lt",
-    "coord_roundtrip", "coord_roundtrip_rint", "volume_conserved", "volume_conserved_axis",
-    "neighbourhood_in_range", "neighbourhood_centre", "neighbourhood_wraps", "open_neighbourhood_eq",
-    "open_shape_shift_step", "mgrid_componentwise", "healpix_parent_child")]
+    "parent_child", "parent_child_open", "children_partition", "children_partition_open", "healpix_parent_child",
+    "parent_child_vec", "children_cover_vec", "mgrid_componentwise", "open_shape_shift_step",
+    "ravelSerial_lt", "flat_roundtrip_serial", "flat_roundtrip_serial_inv",
+    "flat_parent_commutes", "flat_children_commute", "flat_parent_commutes_serial",
+    "coord_roundtrip", "coord_roundtrip_rint", "volume_conserved_axis", "volume_conserved",
+    "neighbourhood_in_range", "neighbourhood_centre", "neighbourhood_wraps", "open_neighbourhood_eq")]
 RULE = ("grid specifications (regular 1-3 D, open with per-level padding, HEALPix nside<=4, MGrid products, FlatGrid "
         "serial/nest) generated with depth<=3 and at most ~600 (quick) / ~4000 (thorough) pixels on the finest level; every "
         "index of every level is evaluated; non-trivial = depth>=1 and some split>1; distinct by the canonical spec")
